@@ -5,6 +5,7 @@ import (
 	"context"
 	"errors"
 	"fmt"
+	"io"
 	"net"
 	"net/http"
 	"os"
@@ -13,6 +14,7 @@ import (
 	"strings"
 	"sync"
 	"sync/atomic"
+	"syscall"
 	"testing"
 	"time"
 
@@ -512,6 +514,7 @@ type scriptedConn struct {
 	net.Conn
 	writes  *int32
 	failAt  int32
+	failErr error
 	written *bytes.Buffer
 	mu      *sync.Mutex
 }
@@ -519,6 +522,9 @@ type scriptedConn struct {
 func (c scriptedConn) Write(b []byte) (int, error) {
 	n := atomic.AddInt32(c.writes, 1)
 	if c.failAt > 0 && n == c.failAt {
+		if c.failErr != nil {
+			return 0, c.failErr
+		}
 		return 0, errors.New("scripted write error")
 	}
 	c.mu.Lock()
@@ -533,6 +539,10 @@ func TestSenderFaults(t *testing.T) {
 	rapid.Check(t, func(t *rapid.T) {
 		connectFailures := rapid.IntRange(0, 1).Draw(t, "connect-failures")
 		failWriteAt := int32(rapid.IntRange(0, 4).Draw(t, "fail-write-at"))
+		// what a failing write returns: a plain error, an expired write deadline (a net.Error that calls itself temporary:
+		// the peer stopped reading), a reset connection, a closed pipe
+		failErr := rapid.SampledFrom([]error{nil, os.ErrDeadlineExceeded, &net.OpError{Op: "write", Net: "tcp", Err: os.ErrDeadlineExceeded},
+			&net.OpError{Op: "write", Net: "tcp", Err: syscall.ECONNRESET}, io.ErrClosedPipe}).Draw(t, "write-error")
 		streams := rapid.IntRange(1, 3).Draw(t, "streams")
 		bufsPer := rapid.IntRange(0, 3).Draw(t, "buffers-per-stream")
 		cancelStream := rapid.IntRange(-1, streams-1).Draw(t, "cancel-stream")
@@ -546,7 +556,7 @@ func TestSenderFaults(t *testing.T) {
 				if int(n) <= connectFailures {
 					return nil, errors.New("scripted connect failure")
 				}
-				return scriptedConn{writes: &writes, failAt: failWriteAt, written: &written, mu: &wmu}, nil
+				return scriptedConn{writes: &writes, failAt: failWriteAt, failErr: failErr, written: &written, mu: &wmu}, nil
 			},
 			Sink:    make(chan sender.Stream, 10),
 			BufPool: sync.Pool{New: func() interface{} { return new(bytes.Buffer) }},
